@@ -8,7 +8,7 @@
    C09_cgls_kold_zero_normal_equations / C09_normal_equations_minimise give
    "x_n is the minimiser" for every system over an ordered field. *)
 From Coq Require Import QArith Qcanon.
-From PV Require Import Dict Vec Dot Mat QcInst Check CG CGLS CGLSFacts CGLSMono.
+From PV Require Import Dict Vec Dot Mat QcInst Check CG CGLS CGLSFacts CGLSMono LSQR.
 Import ListNotations.
 
 (* CG: r_k = y - A x_k for all inputs, all k (any linear Aop, any abs, any field with conjugation) *)
@@ -72,6 +72,25 @@ Theorem C09_normal_op_linop :
   forall (F : FieldS) n (A : list (list F)), wfM F n A -> forall damp, linop F n n (normal_op F n A damp).
 Proof. exact normal_op_linop. Qed.
 Print Assumptions C09_normal_op_linop.
+
+(* LSQR (model Solvers/LSQR.v; the norms the code takes are supplied and assumed exact: m*m = v, 0 <= m).
+   One coded step performs one Golub-Kahan step, for every state, matrix, size and damp:
+   beta' u' = A v - alfa u, |u'| = 1 (beta' > 0), alfa' v' = A^T u' - beta' v, |v'| = 1 (alfa' > 0);
+   on an exact breakdown (beta' = 0) the relation still holds with u' = 0. *)
+Theorem C09_lsqr_bidiag_step :
+  forall (O : OrdField) n (A : list (list O)) damp (st : lstate O) (rt : roots O),
+  let u0 := vsub O (mv O A (l_v O st)) (vscale O (l_alfa O st) (l_u O st)) in
+  let st' := lsqr_step O n A damp st rt in
+  exact O (rt_beta O rt) (dot O u0 u0) ->
+  l_beta O st' = rt_beta O rt /\
+  vscale O (l_beta O st') (l_u O st') = u0 /\
+  (gt0 O (rt_beta O rt) = true -> dot O (l_u O st') (l_u O st') = r1 O /\
+     let v0 := vsub O (mvH O n A (l_u O st')) (vscale O (l_beta O st') (l_v O st)) in
+     exact O (rt_alfa O rt) (dot O v0 v0) ->
+     l_alfa O st' = rt_alfa O rt /\ vscale O (l_alfa O st') (l_v O st') = v0 /\
+     (gt0 O (rt_alfa O rt) = true -> dot O (l_v O st') (l_v O st') = r1 O)).
+Proof. exact lsqr_bidiag_step. Qed.
+Print Assumptions C09_lsqr_bidiag_step.
 
 (* the hypotheses above are satisfiable by a concrete non-trivial system (3x2 over Qc, damp = 1/2, x0 <> 0,
    numpy abs): two iterations reach kold = 0 exactly, one does not *)
